@@ -298,7 +298,7 @@ def gen_case(rng, tier):
         groups.setdefault(group(d), []).append(i)
     pool_initial = copy.deepcopy(pool)
     ops = []
-    nops = rng.randint(10, 40)
+    nops = rng.randint(10, 40) if rng.random() >= 0.03 else rng.randint(80, 200)  # swarm: a few long histories
     tags = 0
 
     def pick(g=None):
